@@ -292,6 +292,18 @@ var (
 	chainCache = map[[3]int64]*Chain{}
 )
 
+// SetParams switches the chain parameters of the simulated network (simnet by
+// default) for everything created afterwards and forgets the cached chains.
+// Only between scenario batches: scenarios of one batch share the parameters.
+// (neutrino keeps asking for headers after every headers message on simnet
+// only, which hides locator problems; regtest behaves like a real network.)
+func SetParams(p chaincfg.Params) {
+	chainMu.Lock()
+	defer chainMu.Unlock()
+	Params = p
+	chainCache = map[[3]int64]*Chain{}
+}
+
 // CachedChain memoises NewChain (chains are immutable, so scenarios of one
 // run share the expensive long prefix).
 func CachedChain(seed int64, n int, tipTime time.Time, txProb float64) *Chain {
